@@ -101,7 +101,8 @@ def _run(ctx, base):
     if ctx.quick:
         cases = [("warm", (False, False), o) for o in ops + guards]
         cases += [("residue", (False, False), o) for o in ("put_over_stale", "putcoll_replace", "delete_coll", "move_over_same", "delete_item")]
-        cases += [("cold", (True, True), o) for o in ("put_new", "putcoll_new", "move_over_cross", "home_predef", "mkcalendar")]
+        cases += [("cold", (True, True), o) for o in ("put_new", "putcoll_new", "move_over_cross", "home_predef", "mkcalendar",
+                                                      "g_put_otheruid", "g_move_noover_same")]
     else:
         cases = [(sh, lay, o) for sh in C.SHAPES for lay in B.LAYOUTS for o in ops]
         cases += [("warm", (False, False), o) for o in guards] + [("cold", (True, True), o) for o in guards]
@@ -137,7 +138,9 @@ def _run(ctx, base):
                                      rd=True, expect_frag=frag, base_status=un["status"]))
                     mjobs.append(None)
                     meta.append(dict(case=(o, sh, tuple(lay)), k=-3, label="%s of %s (call %s of the request on that path)" % (
-                        site["variant"], site["key"][1], occ), mode="fault", err=err, un=un, variant=site["variant"]))
+                        site["variant"], site["key"][1], occ), mode="fault", err=err, un=un,
+                                     variant="%s-%s" % (site["variant"], "props" if site["rel"].endswith(".Radicale.props") else
+                                                        B.site_class(site["key"]).replace("file", "item"))))
             # real short writes of large items
             if o in ("put_big_new", "put_big_over"):
                 for limit in ([4096] if ctx.quick else [1, 4096, 16384]):
